@@ -74,6 +74,7 @@ def renderTree : Tree → String
   | .pk k => s!"pk({renderKey k})"
   | .multiA t ks s => s!"ma({t};{if s then 1 else 0};{renderKeys ks})"
   | .branch l r => "{" ++ renderTree l ++ "," ++ renderTree r ++ "}"
+  | .ms n => s!"ms({cpsOut (Miniscript.toText n)})"
 
 open Desc in
 def renderD : D → String
@@ -89,6 +90,7 @@ def renderD : D → String
   | .rawtr k => s!"rawtr({renderKey k})"
   | .addr a => s!"addr({cpsOut a})"
   | .raw s => s!"raw({toHex s})"
+  | .ms n => s!"ms({cpsOut (Miniscript.toText n)})"
 
 def pOut {α} (r : Desc.P α) (f : α → String) : String :=
   match r with
